@@ -118,3 +118,8 @@ V('C17', 'neg-reorder-asserts', F, PRE + '.sync_worker_state_cb',
 ''', '''                assert reflection_cache is not None
                 assert user_schema_pickle is not None
 ''', None)
+
+V('C17', 'belief-kept-on-stateless-reply', 'edb/server/compiler_pool/pool.py', 'edb.server.compiler_pool.pool.AbstractPool.compile',
+  '            worker._last_pickled_state = result[1]\n', '            if result[1] is not None:\n                worker._last_pickled_state = result[1]\n', 'C17.R5', 'AbstractPool.compile:belief-follows-every-reply')
+V('C17', 'mt-diff-commit-only-with-dbs', 'edb/server/compiler_pool/multitenant_worker.py', 'edb.server.compiler_pool.multitenant_worker.__sync__',
+  '                if updates:\n                    client_schema = client_schema._replace(', '                if dbs is not client_schema.dbs:\n                    client_schema = client_schema._replace(', 'C17.R2', '__sync__:commits=global_schema')
